@@ -2,7 +2,8 @@
 //   - a zzsim.Yield(<site>) call at the top of every function body (FuncDecl and
 //     FuncLit) of every non-test library file, inserted on the same line as the
 //     opening brace so that line numbers do not change;
-//   - import "sync" replaced by the simulator-aware wrapper package;
+//   - import "sync" and import "sync/atomic" replaced by the simulator-aware
+//     wrapper packages;
 //   - a generated site table in <root>/zzsim/sites_gen.go.
 //
 // It reports (JSON on stdout) how many files/sites were touched and whether the
@@ -35,6 +36,7 @@ type report struct {
 	Files        int      `json:"files"`
 	Sites        int      `json:"sites"`
 	SyncImports  []string `json:"sync_imports"`
+	AtomicImports []string `json:"atomic_imports"`
 	GoStmts      []string `json:"go_statements"`
 	ChanOps      []string `json:"chan_ops"`
 	Selects      []string `json:"selects"`
@@ -167,6 +169,17 @@ func main() {
 				end := off(im.Path.End())
 				edits = append(edits, edit{off: start, del: end - start, text: name + " \"" + modPath + "/zzsim/simsync\""})
 				rep.SyncImports = append(rep.SyncImports, rel)
+			}
+			if path == "sync/atomic" {
+				name := "atomic"
+				start := off(im.Path.Pos())
+				if im.Name != nil {
+					name = im.Name.Name
+					start = off(im.Name.Pos())
+				}
+				end := off(im.Path.End())
+				edits = append(edits, edit{off: start, del: end - start, text: name + " \"" + modPath + "/zzsim/simatomic\""})
+				rep.AtomicImports = append(rep.AtomicImports, rel)
 			}
 		}
 		if len(edits) == 0 {
